@@ -152,7 +152,7 @@ theorem store_map (S : Schema) (d : MsgD) (st st' : MState) (m : Spec.AbsMsg) (i
     subst hk0; subst hx0
     injection h with h
     subst h
-    simp only [setAt_setAt]
+    simp only [setAt_setAt_s]
     -- the slot before the step
     have hslot := slotsTyped_getD false S _ _ idx f hsim.typed.2 hf
     by_cases hph : st.slots.getD idx .ph = .ph
@@ -228,7 +228,7 @@ theorem store_rep (S : Schema) (d : MsgD) (st st' : MState) (m : Spec.AbsMsg) (i
     · injection h with h; exact h.symm
     · cases v <;> first | (injection h with h; exact h.symm) | exact absurd rfl (hnl _)
   rw [prepCurrent_nogroup S d st idx f hgn] at hst' hxs
-  simp only [setAt_setAt] at hst'
+  simp only [setAt_setAt_s] at hst'
   rw [ty_getD_setAt_self _ _ _ hi1] at hxs
   subst hst'
   have hslot := slotsTyped_getD false S _ _ idx f hsim.typed.2 hf
@@ -296,7 +296,7 @@ theorem store_sing (S : Schema) (d : MsgD) (st st' : MState) (m : Spec.AbsMsg) (
   | none =>
     rw [prepCurrent_nogroup S d st idx f hgr] at hst'
     rw [setAttr_eq, hf] at hst'
-    simp only [hgr, setAt_setAt, hsv] at hst'
+    simp only [hgr, setAt_setAt_s, hsv] at hst'
     subst hst'
     unfold Spec.put
     rw [hgr]
